@@ -1047,11 +1047,36 @@ func c12ShortStrings(c *core.Ctx, x *c12ctx) {
 				mu.Unlock()
 			}
 		}
-		for _, e := range []string{"tlv.Decode", "tlv.DecodeEncode", "tlv.Unwrap", "iso7816.ParseRApdu", "SecureMessaging.Decode"} {
-			try(e, s)
+		// one goroutine per ROW (not per call) so that a call that does not return is noticed: the row gets 30 s
+		if hostileHangs.Load() >= maxHostileHangs {
+			return
 		}
-		for _, w := range wrappers {
-			try(w.entry, append(append(append([]byte{}, w.tag...), berLenEnc(len(s))...), s...))
+		var at atomic.Pointer[string]
+		done := make(chan struct{})
+		go func() {
+			defer close(done)
+			for _, e := range []string{"tlv.Decode", "tlv.DecodeEncode", "tlv.Unwrap", "iso7816.ParseRApdu", "SecureMessaging.Decode"} {
+				ee := e
+				at.Store(&ee)
+				try(e, s)
+			}
+			for _, w := range wrappers {
+				ee := w.entry
+				at.Store(&ee)
+				try(w.entry, append(append(append([]byte{}, w.tag...), berLenEnc(len(s))...), s...))
+			}
+		}()
+		select {
+		case <-done:
+		case <-time.After(30 * time.Second):
+			hostileHangs.Add(1)
+			entry := "?"
+			if p := at.Load(); p != nil {
+				entry = *p
+			}
+			mu.Lock()
+			bad = append(bad, res{entry, s, hostileOutcome{kind: "timeout"}})
+			mu.Unlock()
 		}
 	})
 	n = len(rows) * (5 + len(wrappers))
@@ -1063,6 +1088,10 @@ func c12ShortStrings(c *core.Ctx, x *c12ctx) {
 	c.Extra["short_string_calls"] = n
 	c.AddTraces(int64(len(rows)))
 	for _, b := range bad {
+		if b.o.kind == "timeout" {
+			c.Violation("C12:timeout:"+b.entry, fmt.Sprintf("%s did not return within 30 s on the short string %x (bare or wrapped in its file template)", b.entry, b.in), map[string]any{"entry_point": b.entry, "input": core.Hex(b.in)})
+			continue
+		}
 		c.Violation("C12:panic:"+b.entry+":"+panicSite(b.o.text), fmt.Sprintf("%s panicked on %x: %s", b.entry, b.in, firstLine(b.o.text)), map[string]any{"entry_point": b.entry, "input": core.Hex(b.in)})
 	}
 }
